@@ -206,11 +206,14 @@ def rand_history(rng):
     return ops
 
 
-def run_history_impl(ops):
-    import highspy
-    s = new_solver()
-    cols = []; obs = []
-    for o in ops:
+class HistoryRunner:
+    """one SolverWrapper driven operation by operation (so that several of them can be interleaved)"""
+    def __init__(self):
+        self.s = new_solver(); self.cols = []; self.obs = []
+
+    def step(self, o):
+        import highspy
+        s = self.s; cols = self.cols
         if o[0] == "add":
             idx = list(range(len(cols), len(cols) + len(o[2])))
             vs = s.add_variables(idx, "v%d_" % len(cols), lb=[float(a) for a, _ in o[2]], ub=[float(b) for _, b in o[2]],
@@ -229,11 +232,30 @@ def run_history_impl(ops):
             s.optimize()
             lp = s.solver.getLp()
             integ = list(lp.integrality_)
-            obs.append(([(F(lp.col_lower_[c.index]), F(lp.col_upper_[c.index]), F(lp.col_cost_[c.index]),
-                          bool(integ) and integ[c.index] == highspy.HighsVarType.kInteger) for c in cols],
-                        F(lp.offset_), lp.sense_ == highspy.ObjSense.kMaximize,
-                        (len(s._pending_fix_vars), len(s._pending_lb_vars))))
-    return obs
+            self.obs.append(([(F(lp.col_lower_[c.index]), F(lp.col_upper_[c.index]), F(lp.col_cost_[c.index]),
+                               bool(integ) and integ[c.index] == highspy.HighsVarType.kInteger) for c in cols],
+                             F(lp.offset_), lp.sense_ == highspy.ObjSense.kMaximize,
+                             (len(s._pending_fix_vars), len(s._pending_lb_vars))))
+
+
+def run_history_impl(ops):
+    r = HistoryRunner()
+    for o in ops:
+        r.step(o)
+    return r.obs
+
+
+def run_interleaved(h1, h2, rng):
+    """two wrappers alive at the same time, their operations interleaved: each must behave as if it were alone"""
+    r1, r2 = HistoryRunner(), HistoryRunner()
+    i = j = 0; order = []
+    while i < len(h1) or j < len(h2):
+        first = (j >= len(h2)) or (i < len(h1) and rng.random() < 0.5)
+        if first:
+            r1.step(h1[i]); i += 1; order.append(1)
+        else:
+            r2.step(h2[j]); j += 1; order.append(2)
+    return r1.obs, r2.obs, order
 
 
 def history_request(ops):
@@ -365,6 +387,26 @@ def run(ctx):
                        {"history": str(h), "observed": str(got), "model": str(model)}, concrete=False)
         else:
             ctx.count("E4_wrapper_histories", "agreements")
+    # ---- E4b: two wrappers alive at once (a model that was built -- with queued bound updates -- but not yet solved must not
+    #      influence another one): interleaved histories, each compared with the property-level expectation for it alone
+    for i in range(ctx.budget(80, 1500)):
+        rng = ctx.rng("e4b", i)
+        h1, h2 = rand_history(rng), rand_history(rng)
+        if rng.random() < 0.5:
+            h2 = [o for o in h2 if o[0] != "opt"]       # built and queued, never optimised
+        try:
+            o1, o2, order = run_interleaved(h1, h2, rng)
+        except Exception as e:
+            ctx.report("interleaved wrapper histories raised " + repr(e), {"h1": str(h1), "h2": str(h2)}, concrete=True); continue
+        ctx.case(["hist2", str(h1), str(h2), str(order)], nontrivial=True); ctx.count("E4_interleaved_wrappers", "cases")
+        for name, h, obs in (("first", h1, o1), ("second", h2, o2)):
+            got = [(c, o, m) for (c, o, m, _) in obs]
+            if got != spec_history(h):
+                ctx.report(f"two wrappers interleaved: the {name} one does not carry exactly its own requested bounds / objective after optimize",
+                           {"h1": str(h1), "h2": str(h2), "order": str(order), "observed": str(got), "expected": str(spec_history(h))}, concrete=True)
+                break
+        else:
+            ctx.count("E4_interleaved_wrappers", "ok")
     # ---- get_values: asked variables only
     from flowpaths.utils.solverwrapper import SolverWrapper
     for i in range(ctx.budget(20, 200)):
